@@ -1,0 +1,111 @@
+//go:build verif
+
+package parser
+
+import (
+	"fmt"
+	"go/ast"
+	"go/token"
+	"go/types"
+
+	bmodel "github.com/reedom/convergen/pkg/builder/model"
+	"github.com/reedom/convergen/pkg/generator"
+	gmodel "github.com/reedom/convergen/pkg/generator/model"
+	"github.com/reedom/convergen/pkg/option"
+)
+
+// VerifSession lets a verification harness run synthetic notation lines for one method of an
+// already loaded setup file through the production sequence
+//
+//	parseNotationInComments(interface level) -> parseNotationInComments(method level) ->
+//	resolveConverters -> builder.CreateFunction -> generator.FuncToString
+//
+// any number of times without loading the package again. It exists only under the build tag
+// "verif"; nothing in the ordinary build refers to it and it changes no production code path.
+type VerifSession struct {
+	p       *Parser
+	methods map[string]types.Object // "Interface.Method" -> method object
+	all     []*bmodel.MethodEntry   // every method with default options (targets of :conv to generated functions)
+}
+
+// NewVerifSession loads the setup file once.
+func NewVerifSession(srcPath, dstPath string) (*VerifSession, error) {
+	p, err := NewParser(srcPath, dstPath)
+	if err != nil {
+		return nil, err
+	}
+	s := &VerifSession{p: p, methods: map[string]types.Object{}}
+	scope := p.pkg.Types.Scope()
+	for _, name := range scope.Names() {
+		obj := scope.Lookup(name)
+		iface, ok := obj.Type().Underlying().(*types.Interface)
+		if !ok || p.srcPath != p.fset.Position(obj.Pos()).Filename {
+			continue
+		}
+		for i := 0; i < iface.NumExplicitMethods(); i++ {
+			m := iface.ExplicitMethod(i)
+			s.methods[name+"."+m.Name()] = m
+			s.all = append(s.all, &bmodel.MethodEntry{Method: m, Opts: option.NewOptions()})
+		}
+	}
+	if len(s.methods) == 0 {
+		return nil, fmt.Errorf("no interface methods in %v", srcPath)
+	}
+	return s, nil
+}
+
+// Methods lists the "Interface.Method" keys of the session.
+func (s *VerifSession) Methods() []string {
+	keys := make([]string, 0, len(s.methods))
+	for k := range s.methods {
+		keys = append(keys, k)
+	}
+	return keys
+}
+
+// Generate runs the notation lines (comment texts such as "// :skip X") for the given method and
+// returns the text of the generated function, or the error the production code reports.
+func (s *VerifSession) Generate(method string, ifaceLines, methodLines []string) (string, error) {
+	obj, ok := s.methods[method]
+	if !ok {
+		return "", fmt.Errorf("unknown method %v", method)
+	}
+	signature, ok := obj.Type().(*types.Signature)
+	if !ok || signature.Params().Len() == 0 || signature.Results().Len() == 0 {
+		return "", fmt.Errorf("method %v has no operands", method)
+	}
+
+	comments := func(lines []string) []*ast.Comment {
+		var list []*ast.Comment
+		for _, l := range lines {
+			if !reNotation.MatchString(l) {
+				continue // ExtractMatchComments only hands over matching lines
+			}
+			list = append(list, &ast.Comment{Slash: obj.Pos(), Text: l})
+		}
+		return list
+	}
+
+	opts := option.NewOptions()
+	if err := s.p.parseNotationInComments(comments(ifaceLines), option.ValidOpsIntf, &opts); err != nil {
+		return "", err
+	}
+	if err := s.p.parseNotationInComments(comments(methodLines), option.ValidOpsMethod, &opts); err != nil {
+		return "", err
+	}
+	entry := &bmodel.MethodEntry{Method: obj, Opts: opts}
+	generating := append([]*bmodel.MethodEntry{entry}, s.all...)
+	for _, conv := range entry.Opts.Converters {
+		if err := s.p.resolveConverters(generating, conv); err != nil {
+			return "", err
+		}
+	}
+	fn, err := s.p.CreateBuilder().CreateFunction(entry)
+	if err != nil {
+		return "", err
+	}
+	g := generator.NewGenerator(gmodel.Code{})
+	return g.FuncToString(fn), nil
+}
+
+var _ = token.NoPos
